@@ -268,6 +268,51 @@ where
     }
 }
 
+
+/// Verification hooks (`cfg(kani)` only): build a log from explicit parts and look at its
+/// segment layout. Segments are built with the real `Segment::with_offset` + `push`.
+#[cfg(kani)]
+impl<T> CommitLog<T>
+where
+    T: Storage + Clone,
+{
+    /// `parts[i] = (absolute_offset, entries)` of the i-th retained segment, oldest first.
+    pub fn verif_from_parts(
+        head: u64,
+        max_segment_size: usize,
+        max_mem_segments: usize,
+        parts: Vec<(u64, Vec<T>)>,
+    ) -> Self {
+        let mut segments = VecDeque::with_capacity(max_mem_segments);
+        let n = parts.len() as u64;
+        for (absolute_offset, entries) in parts {
+            let mut segment = Segment::with_offset(absolute_offset);
+            for e in entries {
+                segment.push(e);
+            }
+            segments.push_back(segment);
+        }
+        Self {
+            head,
+            tail: head + n - 1,
+            max_segment_size,
+            max_mem_segments,
+            segments,
+        }
+    }
+
+    /// (absolute_offset, number of entries, total size) of the i-th retained segment.
+    pub fn verif_segment(&self, i: usize) -> Option<(u64, u64, u64)> {
+        self.segments
+            .get(i)
+            .map(|s| (s.absolute_offset, s.len(), s.size()))
+    }
+
+    pub fn verif_limits(&self) -> (usize, usize) {
+        (self.max_segment_size, self.max_mem_segments)
+    }
+}
+
 #[cfg(test)]
 mod tests {
     use super::{Position::*, *};
